@@ -5,6 +5,8 @@
 //! JapaneseDictionary::from_cfg_storage; recorded: Ok/Err/Panic, the node templates each OOV provider hands out on a probe
 //! text, the matrix cells read back from the loaded grammar, whether analysing the probe text panics.
 use crate::common::*;
+#[path = "c20_text.rs"]
+mod text;
 use serde_json::{json, Value};
 use std::collections::HashMap;
 use std::path::{Path, PathBuf};
@@ -467,11 +469,16 @@ fn baseline_oov() -> Oov {
 }
 
 pub fn run(args: &Args) {
-    let mut sink = Sink::new("C20", &args.out, &["Model.GuardLang", "Model.Params"], args.seed, &args.tier);
+    let mut sink = Sink::new("C20", &args.out, &["Model.GuardLang", "Model.Params", "Model.UnkDefText"], args.seed, &args.tier);
     sink.rule("dictionaries with nl x nr matrices (1..10 square and non-square, a few 32767-sized) x configurations of SimpleOovPlugin / RegexOovProvider / MeCabOovPlugin(unk.def) / InhibitConnectionPlugin where one field (leftId, rightId, cost, POS, pair member) is drawn from the boundary grid {-1,0,d-1,d,d+1,other dim-1..+1,32767,32768,65535,65536,+-i16 ends,i64 max(+1)}; POS present/absent x userPOS allow/forbid x wrong arity; non-trivial = a supplied id within 1 of a dimension or configuration invalid; distinct by generated Coq term");
     let mut env = Env::new(&args.work);
     if let Some(p) = &args.replay {
         let v: Value = serde_json::from_str(&std::fs::read_to_string(p).unwrap()).unwrap();
+        if v["case"]["kind"] == "c20-text" || v["case"]["kind"] == "c20-text-raw" {
+            text::replay(&mut sink, &mut env, &v["case"]);
+            sink.finish();
+            return;
+        }
         let case = Case::from_json(&v["case"]);
         println!("replaying C20 case on a {}x{} matrix, profile {}", case.nl, case.nr, if env.debug { "debug" } else { "release" });
         emit(&mut sink, &mut env, &case, "replay", true);
@@ -561,5 +568,8 @@ pub fn run(args: &Args) {
         }
         emit(&mut sink, &mut env, &case, "malformed_multi", false);
     }
+    // ---- text layer of the MeCab OOV plugin: category definitions + unk.def as texts
+    sink.shard_size = 60;
+    text::run(&mut sink, &mut env, &mut rng, args.n(400, 6000));
     sink.finish();
 }
